@@ -211,7 +211,7 @@ pub fn run(seed: u64, hists: u64, len: usize, mut out: impl Write) -> io::Result
         step: 0,
         before: None,
     };
-    let cfg = Cfg { seed, hists, len, profile: Profile::Core, max_nodes: 20, start: 0 };
+    let cfg = Cfg { seed, hists, len, profile: Profile::Core, max_nodes: 20, start: 0, prefix: Vec::new() };
     let mut g = Gen::new(cfg, Box::new(io::sink()), Box::new(io::sink()), chk);
     g.run()?;
     let c = &g.hooks;
